@@ -10,7 +10,7 @@
    - back_map of a path state is the singleton of its path parent                      (i_back)
    - every name in the tables is a prefix of an inserted word (i_names): the states of the next word
      beyond the common prefix are fresh
-   - every state accepts some word (i_live): so the branching state has no edge yet on the next symbol. *)
+   - every state other than the root accepts some word (i_live; the root does as soon as a word is inserted, by i_lang): so the branching state has no edge yet on the next symbol. *)
 From Coq Require Import List Arith Bool Lia.
 From AV Require Import Base.Util Spec.Lang Spec.FA Spec.DictOrder Spec.Preds Model.FiniteLang Proofs.Preds Proofs.FLDict.
 Import ListNotations.
@@ -58,7 +58,7 @@ Record Inv (s : flst) (done : list word) (u : word) : Prop := mkInv {
   i_names : forall q, bkey q (fl_back s) -> q = [] \/ exists w, In w done /\ pre q w;
   i_keys : forall q, key q (fl_trans s) -> bkey q (fl_back s);
   i_syms : forall q a r, wdelta (fl_trans s) q a = Some r -> exists w, In w done /\ In a w;
-  i_live : forall q, key q (fl_trans s) -> exists v, wacc s q v = true }.
+  i_live : forall q, key q (fl_trans s) -> q <> [] -> exists v, wacc s q v = true }.
 
 (* ---------- compress: one round ---------- *)
 Section CompressOne.
@@ -226,7 +226,7 @@ Section CompressOne.
       { intro E. subst y. apply wdelta_key in Hd. apply tr'_key in Hd. tauto. }
       rewrite (delta'_sub y b Hy) in Hd. destruct (wdelta (fl_trans s) y b) as [r0|] eqn:E0; [|discriminate].
       apply (i_syms _ _ _ HI _ _ _ E0).
-    - intros y Hy. apply tr'_key in Hy. destruct Hy as [Hy Hk]. destruct (i_live _ _ _ HI y Hk) as [v Hv].
+    - intros y Hy Hyn. apply tr'_key in Hy. destruct Hy as [Hy Hk]. destruct (i_live _ _ _ HI y Hk Hyn) as [v Hv].
       exists v. rewrite <- Hv. rewrite <- (acc'_sub y v). rewrite (sub_id y Hy). reflexivity.
   Qed.
 End CompressOne.
